@@ -406,9 +406,13 @@ def filterS {n : Nat} (e : ExS n) : List (Row n) → List (Row n) × ExS n
     let y := filterS x.2 rs
     (if x.1 == some true then r :: y.1 else y.1, y.2)
 
-/-- one evaluation of a prepared query: the answers and the tree afterwards -/
+/-- one evaluation of a prepared query: the answers and the tree afterwards (the tree state is the `ctx` fields
+    of its expression nodes and the order of the triple lists of its BGPs) -/
 def QS.run {n : Nat} (st : Store) : QS n → List (Row n) × QS n
-  | .bgp ts => (evalBGP st Row.empty ts, .bgp ts)
+  | .bgp ts =>
+    -- `evalPart`: `triples = sorted(part.triples, key=…)` builds a NEW list; `part.triples` — the order of
+    -- the patterns in the prepared tree — is left as it is
+    (evalBGP st Row.empty (dynOrder Row.empty ts), .bgp ts)
   | .join a b =>
     let ra := a.run st
     let rb := b.run st
